@@ -3,6 +3,7 @@ CONSTANTS
   IMMS <- X_IMMS
   CELLVALS <- X_CELLVALS
   LAYOUTS <- X_LAYOUTS
+  BLAKE_OFFS <- B_TX
   BUG = "none"
 INIT Init
 NEXT Next
